@@ -54,3 +54,8 @@ pub fn begin() -> usize {
 pub fn peak_over(base: usize) -> usize {
     PEAK.load(Ordering::Relaxed).saturating_sub(base)
 }
+
+/// live bytes right now (read by the watchdog)
+pub fn current() -> usize {
+    CUR.load(Ordering::Relaxed)
+}
